@@ -117,6 +117,10 @@ export function splitProgram(prog, rng, { collide = false } = {}) {
   let nsCounter = 0;
   const usedAsHop = new Set();
   const reexportedNames = new Map();
+  // barrel mode: a module all.ts that `export *`s every other module (some of them reachable along
+  // two paths), from which names are imported
+  const barrelMode = !collide && files.length >= 3 && rng.chance(0.3);
+  let barrelUsed = false;
 
   for (const f of files) {
     const decls = byFile.get(f);
@@ -142,6 +146,7 @@ export function splitProgram(prog, rng, { collide = false } = {}) {
         [defaultOf.get(g) === n ? 6 : 0, "default"],
         [isValue || g.endsWith(".tsx") ? 0 : 1.5, "importType"],
         [3, "reexport"],
+        [barrelMode && !isValue && g !== "entry.ts" && defaultOf.get(g) !== n ? 8 : 0, "barrel"],
       ]);
       if (collision && collision.original === n && style === "named") style = "renamed";
       if (collision && (collision.original === n || collision.as === n) && style === "reexport") style = "renamed";
@@ -151,6 +156,10 @@ export function splitProgram(prog, rng, { collide = false } = {}) {
       if (style === "importType" && (decl.params || []).length) style = "named";
       let source = g;
       let importedName = exportedName;
+      if (style === "barrel") {
+        barrelUsed = true;
+        source = "all.ts";
+      }
       if (style === "reexport") {
         // one or two hops through other files
         const hops = 1 + rng.below(2);
@@ -186,7 +195,14 @@ export function splitProgram(prog, rng, { collide = false } = {}) {
       } else links.push({ from: f, name: n, style, via: g, users: usersOf(n) });
       exported.get(g).add(n);
       const s = JSON.stringify(spec(f, source));
-      if (style === "named") {
+      if (style === "barrel") {
+        if (rng.chance(0.5)) importLines.push(`import { ${importedName} } from ${s};`);
+        else {
+          const local = `${n}_imp`;
+          importLines.push(`import { ${importedName} as ${local} } from ${s};`);
+          rename.set(n, local);
+        }
+      } else if (style === "named") {
         if (importedName !== n) {
           importLines.push(`import { ${importedName} as ${n} } from ${s};`);
         } else importLines.push(`import { ${n} } from ${s};`);
@@ -258,6 +274,16 @@ export function splitProgram(prog, rng, { collide = false } = {}) {
     }
     out[f] = lines.join("\n") + "\n";
   }
+  if (barrelUsed) {
+    const others = files.filter((f) => f !== "entry.ts");
+    // diamonds: an earlier module also re-exports a later one, so the barrel reaches it twice
+    for (let i = 0; i < others.length; i++)
+      for (let j = i + 1; j < others.length; j++)
+        if (rng.chance(0.35) && reexports.get(others[j]).length === 0 && !others[i].endsWith(".d.ts")) {
+          out[others[i]] += `export * from ${JSON.stringify(spec(others[i], others[j]))};\n`;
+        }
+    out["all.ts"] = rng.shuffle(others).map((f) => `export * from ${JSON.stringify(spec("all.ts", f))};`).join("\n") + "\n";
+  }
   return { files: out, links, collision, home: Object.fromEntries(home), fileList: files };
 }
 
@@ -291,7 +317,8 @@ export function breakLink(split, prog, rng) {
   }
   // drop the import statement that brings the name into the importing file
   const lines = files[l.from].split("\n");
-  const i = lines.findIndex((x) => /^import /.test(x) && new RegExp(`\\b${l.name}(_imp|_def)?\\b`).test(x));
+  // the statement that binds the local name of this link (under a name collision another import may mention the same identifier as its exported name)
+  const i = lines.findIndex((x) => new RegExp(`^import (type )?\\{ (\\S+ as )?${l.name}(_imp)? \\} from `).test(x) || new RegExp(`^import ${l.name}(_def)? from `).test(x));
   if (i < 0) return null;
   lines.splice(i, 1);
   files[l.from] = lines.join("\n");
